@@ -64,6 +64,7 @@ const (
 	c20KeyNoHdl   = "C20:libp2p:relayed-while-no-handler"
 	c20KeyVerdict = "C20:libp2p:relayed-despite-verdict:"
 	c20KeyUndec   = "C20:libp2p:relayed-undecodable"
+	c20KeyRepeat  = "C20:libp2p:repeat-relayed-without-accepting-handler-call"
 	c20KeyNoVar   = "C20:libp2p:relayed-no-variant"
 )
 
@@ -133,6 +134,13 @@ func (h *c20Handler) handle(tag, kind string) gexchange.Feedback {
 	defer h.rec.mu.Unlock()
 	if !ok {
 		h.rec.foreign++
+		return gexchange.FeedbackIgnored
+	}
+	if len(h.rec.recs[tag]) > 0 {
+		// Like a real consensus handler, B's handlers take a message they have already been given
+		// as old news: a repeat is ignored whatever the first answer was. (gossipsub itself never
+		// hands a message to the validator twice; only a payload published again does.)
+		h.rec.recs[tag] = append(h.rec.recs[tag], c20HRecord{Handler: h.name, Verdict: "ignored-repeat", Kind: kind, Order: h.rec.order.Add(1)})
 		return gexchange.FeedbackIgnored
 	}
 	h.rec.recs[tag] = append(h.rec.recs[tag], c20HRecord{Handler: h.name, Verdict: c20Verdicts[v].name, Kind: kind, Order: h.rec.order.Add(1)})
@@ -323,12 +331,25 @@ type c20Msg struct {
 	Payload    string `json:"payload"`
 	PayloadHex bool   `json:"payload_is_hex"`
 
+	// NotJSON: the payload is not one JSON document (json.Valid of encoding/json says so,
+	// independently of the codec under test): undecodable whatever a decoder makes of a prefix.
+	NotJSON bool `json:"not_a_json_document,omitempty"`
+	// Replays: the same bytes published again later (a fresh pubsub message each time).
+	Replays []*c20Replay `json:"published_again,omitempty"`
+
 	verdict int
 	digest  [32]byte
+	data    []byte
+}
+
+type c20Replay struct {
+	Phase      string `json:"phase"`
+	PhaseClass string `json:"phase_class"`
+	OrderAt    int64  `json:"order_at_publication"`
 }
 
 var c20ValidKinds = []string{"ph-min", "ph-full", "prevote", "precommit"}
-var c20BadKinds = []string{"garbage", "truncated", "wrong-type", "unknown-key-type", "unknown-validator-key-type", "short-key", "no-variant"}
+var c20BadKinds = []string{"garbage", "truncated", "wrong-type", "unknown-key-type", "unknown-validator-key-type", "short-key", "no-variant", "trailing-garbage", "two-documents"}
 
 type c20Gen struct {
 	codec tmjson.MarshalCodec
@@ -450,6 +471,26 @@ func (g *c20Gen) bad(rng *rand.Rand, kind, tag string, seq int) ([]byte, error) 
 		return json.Marshal(m)
 	case "no-variant":
 		return []byte(fmt.Sprintf(`{"Tag":%q}`, tag)), nil
+	case "trailing-garbage", "two-documents":
+		// A complete, valid message (it carries the tag, and B's handler would accept it)
+		// followed by more bytes: not one JSON document, so not a decodable message, even
+		// though a decoder that stops after the first value finds an acceptable one.
+		b, err := g.valid(rng, c20ValidKinds[rng.IntN(len(c20ValidKinds))], tag, seq)
+		if err != nil {
+			return nil, err
+		}
+		if kind == "two-documents" {
+			b2, err := g.valid(rng, c20ValidKinds[rng.IntN(len(c20ValidKinds))], "second-"+tag, seq+1)
+			if err != nil {
+				return nil, err
+			}
+			if rng.IntN(2) == 0 {
+				b = append(b, '\n')
+			}
+			return append(b, b2...), nil
+		}
+		tails := []string{"x", "}", "]", ",", " {", "\x00", "\n\"tail\"", "garbage " + tag}
+		return append(b, []byte(tails[rng.IntN(len(tails))])...), nil
 	}
 	return nil, fmt.Errorf("unknown bad kind %s", kind)
 }
@@ -468,6 +509,7 @@ type c20Totals struct {
 	swaps, swapsNoHook, swapsHook atomic.Int64
 	hookHits, hookDelays          atomic.Int64
 	sentinels, sentinelsSeen      atomic.Int64
+	republished, replaysJudged    atomic.Int64
 	inconclusiveReceptions        atomic.Int64
 	foreignAtC, foreignAtB        atomic.Int64
 	staticDemoted                 atomic.Int64
@@ -550,6 +592,8 @@ func TestVerif_C20_libp2p(t *testing.T) {
 		r.Count("relayed_to_C."+c20Verdicts[v].name, tot.relayed[v].Load())
 	}
 	r.Count("published.undecodable_or_no_variant", tot.publishedBad.Load())
+	r.Count("published_again.same_payload_new_pubsub_message", tot.republished.Load())
+	r.Count("published_again.judged", tot.replaysJudged.Load())
 	r.Count("relayed_to_C.undecodable_or_no_variant", tot.relayedBad.Load())
 	tot.publishedByKind.Range(func(k, v any) bool {
 		r.Count("published_kind."+k.(string), v.(*atomic.Int64).Load())
@@ -869,6 +913,9 @@ func c20RunTopology(r *verifkit.Run, ctx context.Context, idx, perDyn, staticMul
 	// publish builds, pre-checks and publishes one payload. It returns nil if the
 	// payload was skipped.
 	publish := func(phase, class string, kind string, verdict int) *c20Msg {
+		if kind == "trailing-garbage" || kind == "two-documents" {
+			verdict = 0 // the message in front is one B's handler would accept
+		}
 		tag := c20Tag(idx, verdict, seq)
 		seq++
 		decodable := false
@@ -904,7 +951,10 @@ func c20RunTopology(r *verifkit.Run, ctx context.Context, idx, perDyn, staticMul
 			return nil
 		}
 		hasVariant := cm.ProposedHeader != nil || cm.PrevoteProof != nil || cm.PrecommitProof != nil
+		notJSON := !json.Valid(data)
 		switch {
+		case !decodable && notJSON:
+			// undecodable by the wire format itself; what the codec under test says is not asked
 		case decodable && (derr != nil || !hasVariant),
 			!decodable && kind != "no-variant" && derr == nil,
 			kind == "no-variant" && (derr != nil || hasVariant):
@@ -912,7 +962,7 @@ func c20RunTopology(r *verifkit.Run, ctx context.Context, idx, perDyn, staticMul
 			return nil
 		}
 		m := &c20Msg{Tag: tag, Kind: kind, Decodable: decodable, Verdict: c20Verdicts[verdict].name, Phase: phase, PhaseClass: class,
-			HookDelay: delayOn.Load(), verdict: verdict, digest: sha256.Sum256(data)}
+			HookDelay: delayOn.Load(), verdict: verdict, digest: sha256.Sum256(data), data: data, NotJSON: !decodable && notJSON}
 		if utf8.Valid(data) {
 			m.Payload = string(data)
 		} else {
@@ -936,6 +986,30 @@ func c20RunTopology(r *verifkit.Run, ctx context.Context, idx, perDyn, staticMul
 		}
 		r.Eval(1)
 		return m
+	}
+	// republish publishes the bytes of an earlier message again: a fresh pubsub message (new
+	// sequence number) with the same payload, as a chatty peer re-sending what it knows does.
+	// Only messages C already holds are used, so whatever C receives after this point with
+	// that payload is a relay of the repeat.
+	var replayPool []*c20Msg
+	republish := func(phase, class string) {
+		var cand []*c20Msg
+		for _, m := range replayPool {
+			if m.Decodable && m.verdict == 0 && cRec.has(m.digest) && len(m.Replays) < 3 {
+				cand = append(cand, m)
+			}
+		}
+		if len(cand) == 0 {
+			return
+		}
+		m := cand[rng.IntN(len(cand))]
+		m.Replays = append(m.Replays, &c20Replay{Phase: phase, PhaseClass: class, OrderAt: order.Add(1)})
+		if err := topicA.Publish(tctx, m.data); err != nil {
+			r.Note("%s: publishing again failed: %v", caseID, err)
+			return
+		}
+		tot.republished.Add(1)
+		r.Eval(1)
 	}
 	randomMsg := func(phase, class string) *c20Msg {
 		if rng.IntN(5) == 0 {
@@ -1012,8 +1086,15 @@ func c20RunTopology(r *verifkit.Run, ctx context.Context, idx, perDyn, staticMul
 		}
 		for k := 0; k < n; k++ {
 			add(randomMsg(name, class))
+			if k%3 == 2 {
+				republish(name, class)
+				pace()
+			}
 		}
 		barrier(msgs)
+		if name == "static:H1" {
+			replayPool = append(replayPool, msgs...)
+		}
 	}
 	dynamicPhase := func(name string, n int, hook bool) {
 		delayOn.Store(hook)
@@ -1039,6 +1120,9 @@ func c20RunTopology(r *verifkit.Run, ctx context.Context, idx, perDyn, staticMul
 		nextSwap := 2 + rng.IntN(5)
 		burst := 0
 		for k := 0; k < n && tctx.Err() == nil; k++ {
+			if k%5 == 4 {
+				republish(name, "dynamic")
+			}
 			if m := randomMsg(name, "dynamic"); m != nil {
 				if hook {
 					tot.publishedDyn.hook.Add(1)
@@ -1174,7 +1258,37 @@ func c20RunTopology(r *verifkit.Run, ctx context.Context, idx, perDyn, staticMul
 				r.Nontrivial("libp2p", idx, m.Phase, m.Kind, m.Verdict, handled, relayed)
 			}
 		}
+		if len(m.Replays) > 0 {
+			// C held the payload before it was published again, and B's handlers ignore repeats:
+			// every reception after that point needs an accepting handler call after that point.
+			first := m.Replays[0].OrderAt
+			after, accepts := 0, 0
+			for _, g := range usable {
+				if g.Order > first {
+					after++
+				}
+			}
+			for _, hr := range recs {
+				if hr.Order > first && hr.Verdict == "accepted" {
+					accepts++
+				}
+			}
+			tot.replaysJudged.Add(int64(len(m.Replays)))
+			if after > accepts {
+				r.Violate(c20KeyRepeat,
+					fmt.Sprintf("C received %s payload %q again (%d receptions from B) after it was published a second time in phase %s, although B's handler accepted it only when it was first published (its later records: repeats ignored, or no call at all)",
+						m.Kind, m.Tag, after, m.Replays[0].Phase), caseID,
+					map[string]any{"message": m, "topology": topoDesc, "B_handler_records": recs, "C_receptions": usable, "fate_in_B_pubsub": fate})
+			}
+		}
 		if !relayed || m.PhaseClass == "sentinel" && handled && recs[0].Verdict == "accepted" {
+			continue
+		}
+		if m.NotJSON {
+			tot.relayedBad.Add(1)
+			r.Violate(c20KeyUndec+":not-a-json-document",
+				fmt.Sprintf("C received %s payload %q (phase %s): B relayed bytes that are not one JSON document (a valid message followed by more bytes, or garbage), i.e. an undecodable message", m.Kind, m.Tag, m.Phase), caseID,
+				map[string]any{"message": m, "topology": topoDesc, "B_handler_records": recs, "C_receptions": usable, "fate_in_B_pubsub": fate})
 			continue
 		}
 		if m.Decodable {
